@@ -30,6 +30,10 @@ CLAIMED = {
           "1-3 independent time/async sources run under generated clock scripts (single firings, jumps over many periods) and three executor models; interval/timer histories are checked for consecutive values, never-early and exact-period timing with a prompt executor; scripted futures/streams must be relayed exactly, never early, never polled after their end, and not stall while values are ready. Exploration within the stated bounds.",
           "Trusts the virtual clock and the scripted Future/Stream implementations in build_body.rs.",
           "DESIGN.md §3 C08"),
+  "C09": ("engine-P", "model-based PBT on a virtual clock: generated timed scripts (incl. source events at the instant a timer expires, before its task runs) against model-free invariants over uniquely numbered items and a discrete-event reference model",
+          "debounce / throttle (all edges, fixed and item-dependent windows) / sample(interval) / buffer_with_time / buffer_with_count_and_time run generated timed scripts; outputs must be source items, at most once, in order, buffers non-empty and bounded and complete on completion, and the (time, notification) list must equal a discrete-event reference model of the documented window semantics. Exploration within the stated bounds (single thread; concurrent producers are covered by the engine-T part when present).",
+          "Trusts the discrete-event model in props/c09.rs (documented window semantics + FIFO executor semantics) and the virtual clock.",
+          "DESIGN.md §3 C09"),
   "C13": ("engine-P", "model-based PBT with instrumented closures: generated cold chains built once as CloneableBoxOp, cloned and subscribed successively and nested; counters + reference interpreter as oracle",
           "Generated cold chains (counting source closures, defer factories, poll-counting futures, counting map/filter/scan/tap closures) are built once, then 2-3 clones are subscribed successively and one from inside a callback: all counters must be 0 after building, grow by exactly one per subscription, and every subscription must deliver the reference interpreter's sequence. Exploration within the stated bounds.",
           "Trusts the reference interpreter and the counting wrappers; only operators with a cloneable form are generated (the C03 catalogue).",
